@@ -61,7 +61,8 @@ SpecThm == Init /\ [][NextThm]_<<n, K, act>>
 (* vertices).  Load builds a complex from its skeleton and blockers (add_vertex, add_edge_without_blockers,           *)
 (* add_blocker): the graphs are K5 minus one of four representative edge sets (every graph with at most two missing   *)
 (* edges is isomorphic to one of them), the blockers every valid set of at most MaxLoadBlockers simplices; then every  *)
-(* contraction of every edge in both orientations.  The contracted complexes are not expanded further.                 *)
+(* contraction of every edge in both orientations and every remove_star of a simplex of dimension >= 2.  The resulting   *)
+(* complexes are not expanded further.                                                                                   *)
 CONSTANT MaxLoadBlockers
 AllPairsV == {e \in SUBSET V : Cardinality(e) = 2}
 LoadMissing == {{}, {{0, 1}}, {{0, 1}, {0, 2}}, {{0, 1}, {2, 3}}}
@@ -76,6 +77,7 @@ Load(EE, BB) ==
 NextContract ==
   \/ \E R \in LoadMissing : \E BB \in LoadBlockerSets(AllPairsV \ R) : Load(AllPairsV \ R, BB)
   \/ act.op = "load" /\ \E a, b \in Verts(K) : ContractEdge(a, b, IF a < b THEN "pair" ELSE "edge")
+  \/ act.op = "load" /\ \E s \in K : Dim(s) >= 2 /\ RemoveStar(s, "simplex")   \* a simplex lying in several blockers needs 5 vertices
 SpecContract == Init /\ [][NextContract]_<<n, K, act>>
 ViewContract == <<n, K, act.op = "load">>
 
